@@ -15,6 +15,8 @@
  R6 rows          : every non-empty row of a sheet is parsed (an empty row is skipped, it does not end the sheet).
  R7 node types    : parse_excel's node-type gate is exact and every later comparison of node_type uses a type the gate produces.
  R8 cable names   : names embedding a fibre direction pair from->to with the east cable id and to->from with the west one.
+ R9 ILA degree    : every ILA whose number of links differs from 2 is corrected to a ROADM.
+ R10 route index  : the live route list is never edited through the enumeration index of its snapshot (service sheet).
 """
 import ast
 import re
@@ -443,5 +445,58 @@ def r8_cable_names(ctx):
     ctx.need('R8.cable-names', 8)
 
 
+
+def r9_ila_degree(ctx):
+    """R9: an ILA site has exactly two links: sanity_check corrects (to a ROADM) every ILA whose degree is NOT 2 - degree 1 spurs
+    included - before the converter wires its amplifiers"""
+    repo = ctx.repo
+    f = repo.func(CV, 'sanity_check')
+    hits = []
+    for n in walk_no_nested(f.node):
+        if isinstance(n, ast.If):
+            conj = n.test.values if isinstance(n.test, ast.BoolOp) and isinstance(n.test.op, ast.And) else [n.test]
+            ila = [c for c in conj if isinstance(c, ast.Compare) and "'ila'" in ast.unparse(c).lower() and 'node_type' in ast.unparse(c)]
+            deg = [c for c in conj if isinstance(c, ast.Compare) and len(c.ops) == 1 and any(
+                isinstance(x, ast.Call) and getattr(x.func, 'id', '') == 'len' for x in (c.left, c.comparators[0]))]
+            corrects = any(isinstance(x, ast.Assign) and ast.unparse(x.targets[0]).endswith('.node_type') for st in n.body for x in ast.walk(st))
+            if ila and deg and corrects:
+                hits.append((n, deg[0]))
+    ok = len(hits) == 1
+    if ok:
+        n, d = hits[0]
+        num = d.comparators[0] if isinstance(d.left, ast.Call) else d.left
+        ok = isinstance(d.ops[0], ast.NotEq) and isinstance(num, ast.Constant) and num.value == 2 and \
+            any(isinstance(x, ast.Assign) and ast.unparse(x.targets[0]).endswith('.node_type') for st in n.body for x in ast.walk(st))
+    ctx.check('R9.ila-degree', site(f, hits[0][0]) if hits else site(f), ok, key(f, 'ila-degree'),
+              'sanity_check does not turn every ILA whose number of links differs from 2 into a ROADM: a degree-1 (or degree-3) ILA '
+              'reaches the converter, which wires exactly two directions', ast.unparse(hits[0][1]) if hits else '')
+    ctx.need('R9.ila-degree', 1)
+
+
+def r10_route_index(ctx):
+    """R10: while a COPY of a route list is enumerated, the live list is edited through the position of the value in the live list,
+    never through the enumeration index of the copy (earlier removals shift the live list) - service-sheet twin of C11-R4"""
+    repo = ctx.repo
+    f = repo.func(SS, 'correct_xls_route_list')
+    n = 0
+    for lp in [x for x in walk_no_nested(f.node) if isinstance(x, ast.For) and isinstance(x.iter, ast.Call) and
+               getattr(x.iter.func, 'id', '') == 'enumerate' and isinstance(x.target, ast.Tuple) and 'nodes_list' in ast.unparse(x.iter)]:
+        idx = lp.target.elts[0].id if isinstance(lp.target.elts[0], ast.Name) else None
+        snap = ast.unparse(lp.iter.args[0])
+        root = snap.split('.')[0]
+        n += 1
+        bad = []
+        for x in ast.walk(lp):
+            if isinstance(x, ast.Subscript) and isinstance(x.ctx, (ast.Store, ast.Del)) and isinstance(x.slice, ast.Name) and x.slice.id == idx and \
+                    not ast.unparse(x.value).startswith(root + '.'):
+                bad.append(x)
+            if isinstance(x, ast.Call) and isinstance(x.func, ast.Attribute) and x.func.attr in ('pop', 'insert') and x.args and \
+                    isinstance(x.args[0], ast.Name) and x.args[0].id == idx and not ast.unparse(x.func.value).startswith(root + '.'):
+                bad.append(x)
+        ctx.check('R10.route-index', f'{site(f, lp)} enumerating {snap}', not bad, key(f, 'snapshot-index'),
+                  f'the enumeration index {idx} of the snapshot {snap} is used to edit the live route list, which has already lost the '
+                  'entries skipped earlier in the loop: another hop is overwritten or removed', '; '.join(ast.unparse(b)[:60] for b in bad))
+    ctx.need('R10.route-index', 1)
+
 RULES = [('R1.headers', r1_headers), ('R2.mirrors', r2_mirrors), ('R3.defaulting', r3_defaulting), ('R4.units', r4_units),
-         ('R5.errors', r5_errors), ('R6.rows', r6_rows), ('R7.node-types', r7_node_types), ('R8.cable-names', r8_cable_names)]
+         ('R5.errors', r5_errors), ('R6.rows', r6_rows), ('R7.node-types', r7_node_types), ('R8.cable-names', r8_cable_names), ('R9.ila-degree', r9_ila_degree), ('R10.route-index', r10_route_index)]
